@@ -8,6 +8,10 @@ hook_commits = subprocess.run(["git", "-C", "/repo", "log", "--format=%H", "--gr
 M_TECH = "symbolic execution of rustc MIR + z3 (SMT over reals), bounded; counterexamples replayed on the native build"
 M_NOTE = " f64 is modelled as exact reals (NaN/inf excluded by assumption; divisors proved non-zero on accepted paths); rounding is outside the claim. Trusted base: rustc MIR dump, the mir2smt interpreter (validated per harness against the real build on sampled vectors), z3."
 CLAIMED = {
+ "C07": dict(
+  text="Bounded symbolic checking of the real code. Engine M executes the MIR of method::Strap::update_res with everything it calls (path_res::Strap::calc_res, LinSearchHint::calc_idx, calc_res_strap, PathResCoeff::calc_res_val, the four Basic::calc_res kinds, TrainState::mass) on a symbolic train state, symbolic resistance coefficients and symbolic grade / curve profiles, for every admissible pair of cached indices (enumerated) and each search direction (Fwd, Bwd, Unk). z3 decides for all inputs: weight_static = g*mass_static, bearing/rolling/Davis-B/aero terms equal their definitions, grade and curve resistance equal weight*(cumulative value at front - at rear)/length against an independent piecewise-linear oracle, elev_front and grade_front/grade_back are the track's values at the front / rear, offset_back = offset - length. One call from arbitrary admissible cached indices is an inductive step for the index cache, so runs of any length are covered.",
+  note="Profiles of 2-5 points with strictly increasing offsets and res_net the running integral of res_coeff (what PathTpc::extend builds; C06 planned). Cached indices must not be ahead of (forward search) / behind (backward search) the true ones: that is the documented precondition of calc_idx. method::Point and the aggregation of per-car coefficients in TrainSimBuilder::make_train_sim_parts are not covered. Found and fixed: grade_back used the front coefficient (known_findings.json)." + M_NOTE,
+  technique=M_TECH, design_ref="DESIGN.md section 4 (C07)"),
  "C02": dict(
   text="Bounded symbolic checking of the real code. Engine M executes the MIR of InsertSpeed::insert_speed, min_speed, PathTpc::add_speeds, TrainParams::speed_set_applies and CompareType::applies. Inductive step: for every sorted profile of n points (not necessarily canonical), every restriction starting at/after the first point and every symbolic query position x, the profile after the insertion is <= the restriction's speed wherever the restriction covers x and <= the previous profile everywhere. add_speeds: for symbolic base offset, train length, speed_max, head-end or tail-end sets with 1-2 restrictions and an optional gating parameter of every limit/compare type, the enforced limit is <= each applicable restriction over [start+base, end+base(+train length for tail-end sets)) and never above speed_max; a set that does not apply changes nothing. By induction over the insertion sequence this covers any number of links and restrictions per link.",
   note="n = 1-3 points quick, 1-5 thorough; 1-2 restrictions per set. Assumes restrictions non-empty (start < end), positive speeds, and the invariant profile <= speed_max, which is re-proved as a post-condition. The hash-map lookup of a speed set by train type (extract_speed_set) and PathTpc::extend's link loop are outside this check (extend composition is part of C06)." + M_NOTE,
